@@ -67,6 +67,29 @@ case "$ID" in C10|C11|C13|C19)
   ;;
 esac
 
+case "$ID" in C06|C10|C11|C13|C19)
+  # ---- valgrind memcheck on the plain release binary (no recompilation, every dependency and std included as they ship):
+  # invalid reads / writes, use of uninitialised values in conditions, mismatched frees, definite leaks. Threads are
+  # serialised by valgrind, so the budget is divided hard; a timeout is inconclusive.
+  if command -v valgrind >/dev/null 2>&1 && [ -x "$TGT/plain/hfcheck" ]; then
+    case "$ID" in C06) mdiv=50;; C13) mdiv=1000;; *) mdiv=2000;; esac
+    timeout 900 valgrind --error-exitcode=97 --leak-check=full --show-leak-kinds=definite --errors-for-leak-kinds=definite --log-file="$AUX/memcheck.log" \
+      "$TGT/plain/hfcheck" "$ID" quick --seed "$SEED" --flavour memcheck --budget-div "${VERIF_MEMCHECK_DIV:-$mdiv}" --skip-selftest --evidence-name "_aux-memcheck-$ID.json" >"$AUX/memcheck.out" 2>&1
+    r=$?
+    grep -a '^VIOLATION\|^OK\|^FAIL\|^INCONCLUSIVE' "$AUX/memcheck.out" | sed 's/^/[memcheck] /' | cut -c1-400
+    nerr=$(grep -a 'ERROR SUMMARY' "$AUX/memcheck.log" | tail -1 | sed 's/.*ERROR SUMMARY: \([0-9]*\) errors.*/\1/')
+    echo "[memcheck] valgrind error summary: ${nerr:-none} errors (exit $r)"
+    if [ "$r" = "97" ] || { [ -n "$nerr" ] && [ "$nerr" != "0" ]; }; then
+      mkdir -p "$HERE/replays"; rp="$HERE/replays/$ID-thorough-s$SEED-memcheck-report.txt"; head -300 "$AUX/memcheck.log" > "$rp"
+      echo "VIOLATION property=$ID replay=$rp"; fail=1; note "memcheck report"
+    elif [ $r -eq 1 ]; then fail=1; note "memcheck-flavour violation"
+    elif [ $r -ne 0 ]; then note "memcheck inconclusive rc=$r"; else note "memcheck ok (0 errors)"; fi
+  else
+    note "memcheck inconclusive: valgrind or the plain binary missing"
+  fi
+  ;;
+esac
+
 if [ "$ID" = "C13" ]; then
   # ---- Miri: 16 shard processes, a few hundred strings x 11 entry points each
   ensure_fresh "$TGT-miri"
